@@ -128,7 +128,7 @@ func init() {
 func init() {
 	addProp(&propDef{
 		ID: "C07", Check: "policy", Level: "fault_enumeration",
-		Rule: "command trees of the bound with Before/After/Action on every level x spec assignments over {`[-f]`, `[-f] X`, `[-i] [-o]` (int and string options), `N` (int argument)} x every target x per-level argvs covering every rejection kind (spec mismatch at each level, undeclared option, missing value, unconvertible value for an int option / argument) and accepted controls x every assignment of {ContinueOnError, ExitOnError, PanicOnError} to the root and of {inherited, ContinueOnError, ExitOnError, PanicOnError} to every deeper level of the path, set inside each command's initializer; judged against the reference router: rejected => no hook and no Action ran, `Error:` and the usage line of the rejecting command on the error stream, then exactly the policy of that command; accepted => hooks in nesting order, nil, no exit, no panic; non-trivial = rejected invocations",
+		Rule: "command trees of the bound with Before/After/Action on every level x spec assignments over {`[-f]`, `[-f] X`, `[-i] [-o]` (int and string options), `N` (int argument)} x every target x per-level argvs covering every rejection kind (spec mismatch at each level, undeclared option, missing value, unconvertible value for an int option / argument) and accepted controls x every assignment of {ContinueOnError, ExitOnError, PanicOnError} to the root and of {inherited, ContinueOnError, ExitOnError, PanicOnError} to every deeper level of the path, set inside each command's initializer; judged against the reference router: rejected => no hook and no Action ran, `Error:` and a `Usage: <full path of the rejecting command>` line on the error stream, then exactly the policy of that command; accepted => hooks in nesting order, nil, no exit, no panic; non-trivial = rejected invocations",
 		Assumptions: []string{"per-level validation uses the reference semantics of DESIGN.md section 4 plus strconv for int containers"},
 	})
 }
@@ -136,7 +136,7 @@ func init() {
 func init() {
 	addProp(&propDef{
 		ID: "C14", Check: "help", Level: "exploration",
-		Rule: "command trees of the bound (hooks on every level, long descriptions set) x spec assignments over {`[-f]`, `[-f] X`, `[-f] [-- X...]`} x every target x every alias combination x per-level argvs (valid, invalid, with and without `--`) x a -h/--help token inserted at every position x the three policies; plus a declared version flag as first argument; judged: the long help of the command named by the sub-command names preceding the token (exact usage line, long description), no `Error:` line, no hook, exit 0 under ExitOnError else nil; a help token after `--` in the same command's own arguments must be bound as data; cases where an ancestor's own arguments contain `--` are generated, counted, not judged; non-trivial = judged help/version requests",
+		Rule: "command trees of the bound (hooks on every level, long descriptions set) x spec assignments over {`[-f]`, `[-f] X`, `[-f] [-- X...]`} x every target x every alias combination x per-level argvs (valid, invalid, with and without `--`) x a -h/--help token inserted at every position x the three policies; plus a declared version flag as first argument; judged: the long help of the command named by the sub-command names preceding the token (`Usage: <full path>` line of exactly that command, long description), no `Error:` line, no hook, exit 0 under ExitOnError else nil; a help token after `--` in the same command's own arguments must be bound as data; cases where an ancestor's own arguments contain `--` are generated, counted, not judged; non-trivial = judged help/version requests",
 		Assumptions: []string{"the addressed command is computed by a 5-line walk over the sub-command names preceding the token"},
 	})
 }
@@ -184,7 +184,7 @@ func init() {
 func init() {
 	addProp(&propDef{
 		ID: "C19", Check: "custom", Level: "exploration",
-		Rule: "12 logging custom flag.Value types (every combination of IsBoolFlag absent/false/true, Clear absent/present, IsDefault absent/present) as option and as argument x 5 specs x 4 environment settings (unset, single, list, failing) x every argv up to length 3 over the option's spellings, values, a token on which Set fails, and `--`; judged on the per-instance call log: at declaration the environment content arrives through Set (after Clear for a multi-valued type); during Run: Clear exactly once and first iff the type has Clear and a command-line value is bound, then Set with exactly the tokens the reference matcher binds, in order (Set(\"true\") for a bare flag of a type whose IsBoolFlag() is true; other types take a value); a Set error gives a usage error and the Action does not run; non-trivial = command lines with an accepting derivation",
+		Rule: "12 logging custom flag.Value types (every combination of IsBoolFlag absent/false/true, Clear absent/present, IsDefault absent/present) as option and as argument x 5 specs x 4 environment settings (unset, single, list, failing) x every argv up to length 3 over the option's spellings, values, a token on which Set fails, and `--`; judged on the per-instance call log: at declaration only the environment content is delivered, through Set (the exact sequence is not fixed by the property and not judged); during Run: Clear exactly once and first iff the type has Clear and a command-line value is bound, then Set with exactly the tokens the reference matcher binds, in order (Set(\"true\") for a bare flag of a type whose IsBoolFlag() is true; other types take a value); a Set error gives a usage error and the Action does not run; non-trivial = command lines with an accepting derivation",
 		Assumptions: []string{"bound tokens come from the reference semantics of DESIGN.md section 4 (any accepting derivation)", "when two containers are filled and one Set fails, the other container may or may not have been filled (map iteration order): both are accepted"},
 	})
 }
